@@ -187,7 +187,7 @@ def rule_str(r):
 
 def stmt_str(s):
   if isinstance(s, Rule): return rule_str(s)
-  if isinstance(s, Functor): return '%s := %s(%s);' % (s.new, s.base, ', '.join('%s: %s' % (a, b) for a, b in s.bindings))
+  if isinstance(s, Functor): return '%s := %s(%s);' % (s.new, s.base, ', '.join('%s: %s' % (a, b if isinstance(b, str) else ex(b)) for a, b in s.bindings))
   if isinstance(s, Ann): return s.text
   raise ValueError(s)
 
